@@ -770,6 +770,7 @@ void Exec::run_op(const Op& op) {
         oc = new OwnCrystal(d);
         src = &oc->cs; known = true;
       }
+      double src_volume = src ? src->volume : 0.0;
       Crystal_Struct* c = Crystal_MakeCopy(src, ep);
       failed_sentinel = !c;
       if (oc) { oc->scribble(); delete oc; }
@@ -779,6 +780,7 @@ void Exec::run_op(const Op& op) {
           if (deep && known) {
             std::string df = diff_crystal(c, d, false);
             if (!df.empty()) violation("model-mismatch", "Crystal_MakeCopy", "copy differs from its source: %s", df.c_str());
+            else if (!same_bits(c->volume, src_volume)) violation("model-mismatch", "Crystal_MakeCopy", "copy's volume %.17g differs from the source's %.17g", c->volume, src_volume);
           }
         }
         nh.type = HT_CRYSTAL; nh.p = c; nh.cd = d; nh.cd_known = known;
